@@ -521,7 +521,9 @@ impl<C: ContentAddrStore> SealedState<C> {
             .keys()
             .map(|k| self.0.stakes.votes(my_epoch, *k))
             .sum();
-        if total_votes > present_votes / 2 * 3 {
+        // strictly more than two thirds of the voting power: 3 * present > 2 * total (in 256 bits,
+        // since vote tallies are u128 sums)
+        if ethnum::U256::from(present_votes) * 3 > ethnum::U256::from(total_votes) * 2 {
             Some(ConfirmedState {
                 state: self.clone(),
                 cproof,
